@@ -1,6 +1,7 @@
 """C17 - copies and pickles of models and results behave like the original (E2 + E3)."""
-import copy, itertools, pickle, warnings
+import copy, itertools, os, pickle, warnings
 import numpy as np
+SEED = int(os.environ.get('VERIF_SEED', '0') or 0)   # rotates the real seeds; no verdict depends on it
 from ..core import pmap
 from ..nets import spec, ma, hill, gen
 from ..modelspec import to_model, reaction_tuple, rule_tuple
@@ -149,7 +150,7 @@ def observe_plain(m, lineage=False):
         sims = {}
         for name, kw in (('ssa', dict(stochastic=True)), ('safe', dict(stochastic=True, safe=True)), ('volume', dict(stochastic=True, volume=2.0)),
                          ('delay', dict(stochastic=True, delay=True)), ('det', dict(stochastic=False))):
-            br.py_seed_random(4242)
+            br.py_seed_random(4242 + SEED)
             with warnings.catch_warnings():
                 warnings.simplefilter('ignore')
                 r = py_simulate_model(TIMES, Model=m, return_dataframe=False, **kw)
@@ -165,12 +166,12 @@ def lineage_obs(m):
     obs = observe_plain(m, lineage=True)
     order = m.get_species_list()
     perm = [order.index(s) for s in sorted(order)]
-    br.py_seed_random(777)
+    br.py_seed_random(777 + SEED)
     with warnings.catch_warnings():
         warnings.simplefilter('ignore')
         lin = py_SimulateCellLineage(np.linspace(0, 1.5, 13), Model=m)
     obs['lineage'] = lineage_struct(lin, perm)
-    br.py_seed_random(778)
+    br.py_seed_random(778 + SEED)
     with warnings.catch_warnings():
         warnings.simplefilter('ignore')
         r = py_SimulateSingleCell(np.linspace(0, 1.0, 9), Model=m, return_dataframes=False)
